@@ -10,6 +10,8 @@
 From Coq Require Import String List QArith Bool Arith PeanoNat Lia.
 Import ListNotations.
 Require Import SC3.model.Controls SC3.proofs.C04_layout SC3.proofs.C04_main.
+Require Import SC3.proofs.C04_lags SC3.proofs.C04_total SC3.proofs.C04_bridge.
+Require SC3.model.Scgf.
 Open Scope nat_scope.
 
 (* the control parameters of f, as entries with a provisional index *)
@@ -113,6 +115,34 @@ Proof.
   apply H5. reflexivity.
 Qed.
 
+(* FULL strength of ctl_lags_partial: the lag input beside the output bound to channel j of a kr
+   parameter is element (j mod len l) of the parameter's OWN lag list l (= [lag] for a number;
+   l is never empty) when the group is made of LagControls; when it is a plain Control (no
+   non-zero lag in the group) that element is zero.  cn_lag c is tied to the rates argument by
+   rates_arg_overrides_annotation (cn_lag = lag_or_zero (rates[i])). *)
+Theorem ctl_lags : forall specs st f st' i c,
+  build_one fixed specs (Ok st) f = Ok st' -> st_cindex st = length (st_controls st) ->
+  nth_error (entries specs st f) i = Some c -> cn_rate c = Rkr ->
+  let l := lag_as_list (cn_lag c) in
+  l <> [] /\
+  exists rs r, st_recv st' = st_recv st ++ [rs] /\ nth_error rs i = Some r /\
+    forall j, j < length (cn_default c) ->
+      exists un, nth_error (st_units st') (fst (nth j (r_chans r) (0, 0))) = Some un /\
+        ((u_cls un = ULag /\
+          nth_error (u_lags un) (snd (nth j (r_chans r) (0, 0))) = Some (nth (j mod length l) l 0%Q))
+         \/ (u_cls un = UControl /\ qnz (nth (j mod length l) l 0%Q) = false)).
+Proof.
+  intros specs st f st' i c H Hi Hn RT l.
+  assert (Hwf : Forall lag_wf (entries specs st f)) by apply mk_cnames_lag_wf.
+  split.
+  { rewrite Forall_forall in Hwf. apply (Hwf c). eapply nth_error_In. eassumption. }
+  destruct (ctl_lags_partial specs st f st' i c H Hi Hn RT) as (rs & r & R & Nr & K).
+  exists rs, r. split; [assumption|]. split; [assumption|].
+  intros j Hj. destruct (K j Hj) as (un & Hu & [(Hnz & Hc & Hl)|(Hz & Hc)]); exists un; (split; [assumption|]).
+  - left. split; [assumption|]. rewrite Hl. apply klags_at; assumption.
+  - right. split; [assumption|]. eapply klags_all_zero; eassumption.
+Qed.
+
 (* the name-table entry of the i-th control parameter: name, rate, defaults and lag *)
 Theorem entries_are_parameters : forall specs st f i p,
   nth_error (f_params f) (f_prepend f + i) = Some p ->
@@ -199,6 +229,96 @@ Proof.
   assert (H3 : fold_left (build_one fixed specs) [f] (Ok st1) = Ok st2) by exact H2.
   destruct (build_fold_inv _ _ _ _ H3 I1) as (_ & _ & A & C & U). repeat split; assumption.
 Qed.
+
+(* ------------------------------------------------------------------ which signatures build.
+   sig_err specs f (proofs/C04_total.v) is a decidable function of the signature alone; it names
+   the exception, in the order in which the code raises:
+     EKind      some parameter is not POSITIONAL_OR_KEYWORD                     (ValueError)
+     ERank      a parameter after `prepend` has a tuple default holding a container (ValueError)
+     EAnnot     a parameter after `prepend` has an annotation outside ir/tr/ar/kr   (ValueError)
+     ENoOutputs some rate group has members but only empty tuple defaults   (Exception, 0 channels)
+     EPrepend   prepend is longer than the parameter list                        (TypeError)
+   and None otherwise.  The build of one function raises exactly that exception and succeeds
+   exactly when there is none; a definition (outer function + wrapped ones, in the order they
+   are entered) raises the exception of the first function that has one. *)
+Theorem build_raises_exactly : forall specs st f,
+  st_cindex st = length (st_controls st) ->
+  match sig_err specs f with
+  | Some e => build_one fixed specs (Ok st) f = Err e
+  | None => exists st', build_one fixed specs (Ok st) f = Ok st'
+  end.
+Proof. exact build_one_total. Qed.
+
+Theorem sig_ok_iff_builds : forall specs st f,
+  st_cindex st = length (st_controls st) ->
+  (sig_ok specs f = true <-> exists st', build_one fixed specs (Ok st) f = Ok st').
+Proof. exact C04_total.sig_ok_iff_builds. Qed.
+
+Theorem definition_builds_exactly : forall specs t,
+  match first_err specs (preorder t) with
+  | Some e => build_def fixed specs t = Err e
+  | None => exists st, build_def fixed specs t = Ok st
+  end.
+Proof. intros specs t. unfold build_def. apply build_list_total. Qed.
+
+(* the layout theorems with the guard "the build does not raise" replaced by sig_ok *)
+Theorem layout_for_every_ok_signature : forall specs st f,
+  sig_ok specs f = true -> st_cindex st = length (st_controls st) ->
+  exists st', build_one fixed specs (Ok st) f = Ok st' /\
+    let cns := entries specs st f in
+    let slot := slot_of (length (st_controls st)) cns in
+    (exists final, st_all st' = st_all st ++ final /\ length final = length cns /\
+       forall i c, nth_error cns i = Some c -> nth_error final i = Some (set_index c (slot i c))) /\
+    st_controls st' = st_controls st ++ gslots Rir cns ++ gslots Rtr cns ++ gslots Rar cns ++ gslots Rkr cns /\
+    (forall i c, nth_error cns i = Some c ->
+       firstn (length (cn_default c)) (skipn (slot i c) (st_controls st')) = cn_default c) /\
+    exists rs, st_recv st' = st_recv st ++ [rs] /\
+      forall i c, nth_error cns i = Some c ->
+        exists r, nth_error rs i = Some r /\ r_name r = cn_name c /\
+          length (r_chans r) = length (cn_default c) /\
+          forall j, j < length (cn_default c) ->
+            exists un, nth_error (st_units st') (fst (nth j (r_chans r) (0, 0))) = Some un /\
+              u_special un + snd (nth j (r_chans r) (0, 0)) = slot i c + j.
+Proof.
+  intros specs st f Hok Hi.
+  destruct (proj1 (C04_total.sig_ok_iff_builds specs st f Hi) Hok) as (st' & H).
+  exists st'. split; [exact H|]. intros cns slot.
+  destruct (ctl_layout specs st f st' H Hi) as (final & A & L & N & C & _).
+  split; [exists final; repeat split; assumption|]. split; [exact C|].
+  split; [intros i c Hn; apply (ctl_defaults_in_array specs st f st' i c H Hi Hn)|].
+  destruct (build_one_spec _ _ _ _ H Hi) as (cns' & pl & -> & _ & _ & R & _).
+  exists (map recv_of pl). split; [exact R|].
+  intros i c Hn.
+  destruct (ctl_body_receives_own_slots specs st f st' i c H Hi Hn) as (rs & r & R' & Nr & Hname & _ & Hlen & Hch).
+  rewrite R in R'. apply app_inv_head in R'. injection R' as <-.
+  exists r. repeat split; try assumption.
+  intros j Hj. destruct (Hch j Hj) as (un & H1 & H2 & _). exists un. split; assumption.
+Qed.
+
+(* ------------------------------------------------------------------ the whole definition and
+   the bytes (C02's format model, coq/model/Scgf.v) *)
+Theorem table_points_at_defaults : forall specs t st,
+  build_def fixed specs t = Ok st ->
+  st_cindex st = length (st_controls st) /\
+  forall c, In c (st_all st) ->
+    firstn (length (cn_default c)) (skipn (cn_index c) (st_controls st)) = cn_default c /\
+    (cn_default c <> [] -> cn_index c + length (cn_default c) <= length (st_controls st)).
+Proof. exact C04_bridge.table_points_at_defaults. Qed.
+
+(* w = the float32 word of a number (struct), any function.  handed_ctl / handed_names are the
+   control words and the (name, index) table the writer is given. *)
+Theorem bytes_carry_layout : forall (w : Q -> Z) specs t st d bs,
+  build_def fixed specs t = Ok st ->
+  Scgf.d_ctl d = handed_ctl w st -> Scgf.d_names d = handed_names st ->
+  Scgf.write_def d = Some bs ->
+  exists d', Scgf.parse_def bs = Scgf.Ok d' /\
+    length (Scgf.d_ctl d') = length (st_controls st) /\
+    length (Scgf.d_names d') = length (st_all st) /\
+    forall k c, nth_error (st_all st) k = Some c ->
+      nth_error (Scgf.d_names d') k = Some (Scgf.bs_of_string (cn_name c), Z.of_nat (cn_index c)) /\
+      firstn (length (cn_default c)) (skipn (cn_index c) (Scgf.d_ctl d')) = map w (cn_default c) /\
+      (cn_default c <> [] -> (0 <= Z.of_nat (cn_index c) < Scgf.zlen (Scgf.d_ctl d'))%Z).
+Proof. exact C04_bridge.bytes_carry_layout. Qed.
 
 (* variants: the announced count is the number of entries present (no truncated section);
    what is written is the longest prefix of valid variants (an invalid one -- unknown control,
@@ -293,6 +413,33 @@ Example snapshot_laglist_refuted :
   | Ok st => (st_controls st, length (st_units st)) | Err _ => ([], 0) end = ([1; 2; 3; 1; 2; 3]%Q, 2).
 Proof. vm_compute. reflexivity. Qed.
 
+(* sig_err on concrete signatures: the example builds; each error kind is reachable *)
+Example sig_ok_example : sig_err [("e", 9%Q)] ex_sig = None.
+Proof. vm_compute. reflexivity. Qed.
+Example sig_err_examples :
+  (sig_err [] {| f_params := [{| p_name := "a"; p_pok := false; p_annot := Some ABad; p_default := DNested |}]; f_rates := []; f_prepend := 0 |},
+   sig_err [] {| f_params := [{| p_name := "a"; p_pok := true; p_annot := Some ABad; p_default := DNested |}]; f_rates := []; f_prepend := 0 |},
+   sig_err [] {| f_params := [{| p_name := "a"; p_pok := true; p_annot := Some ABad; p_default := DNone |}]; f_rates := []; f_prepend := 0 |},
+   sig_err [] {| f_params := [{| p_name := "a"; p_pok := true; p_annot := Some ABad; p_default := DNested |}]; f_rates := []; f_prepend := 1 |},
+   sig_err [] {| f_params := [P "a" (DTuple [])]; f_rates := []; f_prepend := 0 |},
+   sig_err [] {| f_params := [P "a" (DTuple []); P "b" (DScalar 1%Q)]; f_rates := []; f_prepend := 0 |},
+   sig_err [] {| f_params := [P "a" DNone]; f_rates := []; f_prepend := 2 |})
+  = (Some EKind, Some ERank, Some EAnnot, None, Some ENoOutputs, None, Some EPrepend).
+Proof. vm_compute. reflexivity. Qed.
+
+(* the hypotheses of bytes_carry_layout are satisfiable: the example definition, handed to C02's
+   writer with an arbitrary word function, is accepted *)
+Example bytes_example :
+  match build_def fixed [("e", 9%Q)] (FTree ex_sig []) with
+  | Ok st => exists bs, Scgf.write_def
+               (Scgf.mkSdef (Scgf.bs_of_string "ex") [] (handed_ctl (fun q => Qnum q) st) (handed_names st) [] []) = Some bs
+  | Err _ => False
+  end.
+Proof. vm_compute. eexists. reflexivity. Qed.
+
 Print Assumptions ctl_layout.
 Print Assumptions ctl_body_receives_own_slots.
 Print Assumptions call_maps_args.
+Print Assumptions ctl_lags.
+Print Assumptions build_raises_exactly.
+Print Assumptions bytes_carry_layout.
